@@ -27,9 +27,10 @@ Added later (same functions, additional arms; nothing about the older constructs
   difference between them); function parameters are variables of the body (`Ctx.varTy`);
 * statements: `T a = e, b;` (`decls`), `const T a = e, b = f;` (`constDecls`); `return` is checked
   against the innermost enclosing function at every depth (`ρ`);
-* two places where the code as it is leaves the rules, each a switch: `checksXcrementTarget`
-  (`--c` on a constant is accepted) and `computeTyEnumIsInt` (`compute_ty` of a string-enum
-  constant is `Int`; `check` is `check_expr` without its `debug_assert_eq!`, which then fires);
+* two places where the code left the rules until e098828 / e91a1bf, each a switch (now set to
+  the repaired behaviour): `checksXcrementTarget` (`--c` on a constant was accepted) and
+  `computeTyEnumIsInt` (`compute_ty` of a string-enum constant was `Int`; `check` is `check_expr`
+  without its `debug_assert_eq!`, which then fired);
 * `evalT`: evaluation of the whole expression language (for `type_preservation`).
 Not modelled: explicit sub calls `@f(..)` / `f(..) async` (every one is rejected by the visitor
 since aa5781e, the harness never generates them), `meta` blocks (their scalars go through
@@ -280,19 +281,18 @@ not a register (alias), and constants cannot be written to. -/
 def checkAssignable (Γ : Ctx) (v : VarRef) : Outcome Unit :=
   if !v.isReg && Γ.isConst v.id then .err constAssignErr else .ok ()
 
-/-- SWITCH: does `check_expr` reject `++c` / `c--` whose operand is a constant?  `false` = the
-code as it is: the `XcrementOp` arm calls `check_var` and `require_int` only, not
-`check_var_is_assignable` (which 0757655 added to assignments and `times` clobbers), so
-`const int c = 3; .. if (--c > 0) goto l;` is accepted and panics in lowering
-(`C09.xcrement_const_accepted`, open finding). -/
-def checksXcrementTarget : Bool := false
+/-- SWITCH: does `check_expr` reject `++c` / `c--` whose operand is a constant?  `true` since the
+repair e098828 (the `XcrementOp` arm calls `check_var_is_assignable` right after `check_var`,
+before `require_int`); before it (`false`) the arm called `check_var` and `require_int` only, so
+`const int c = 3; .. if (--c > 0) goto l;` was accepted and panicked in lowering
+(`C09.xcrement_const_accepted_when_unchecked`). -/
+def checksXcrementTarget : Bool := true
 
-/-- SWITCH: which type does `compute_ty` give `Enum.Name`?  `true` = the code as it is:
-`ast::Expr::EnumConst { .. } => ExprType::Value(ScalarType::Int)` whatever the enum's type, while
-`check_expr` answers `enum_ty(enum_name)`; on a constant of the string enum `EclSubName` the
-`debug_assert_eq!` of `check_expr` fires (`C09.computeTy_disagrees_on_string_enum`, open
-finding).  `false` = `compute_ty` asks `enum_ty` as well. -/
-def computeTyEnumIsInt : Bool := true
+/-- SWITCH: which type does `compute_ty` give `Enum.Name`?  `false` since the repair e91a1bf
+(`compute_ty` asks `enum_ty(enum_name)` like `check_expr`); before it (`true`) the answer was
+`Int` whatever the enum's type, and on a constant of the string enum `EclSubName` the
+`debug_assert_eq!` of `check_expr` fired (`C09.computeTy_disagrees_on_string_enum`). -/
+def computeTyEnumIsInt : Bool := false
 
 /-- `pseudo_check` -/
 def pseudoCheck (k : PseudoKind) (t : Ty) : Outcome Unit :=
@@ -445,11 +445,12 @@ def check (Γ : Ctx) : TExpr → Outcome ETy
     | .err c => .err c
     | .panic s => .panic s
   | .xcrement _ _ v =>
-    -- `let var_ty = self.check_var(var)?; self.require_int(var_ty, ..)?; Value(var_ty)`
-    match (if checksXcrementTarget then checkAssignable Γ v else .ok ()) with
-    | .ok () =>
-      match checkVar (Γ.refTy v) v.sig with
-      | .ok t =>
+    -- `let var_ty = self.check_var(var)?; self.check_var_is_assignable(var)?;
+    --  self.require_int(var_ty, ..)?; Value(var_ty)`: a float constant is reported as a constant
+    match checkVar (Γ.refTy v) v.sig with
+    | .ok t =>
+      match (if checksXcrementTarget then checkAssignable Γ v else .ok ()) with
+      | .ok () =>
         match requireExact t .int with
         | .ok () => .ok (.value t)
         | .err c => .err c
@@ -819,6 +820,9 @@ def UnopTy : UnOp → Ty → Ty → Prop
   | .castI, t, t' | .sigI, t, t' => Numeric t ∧ t' = .int
   | .castF, t, t' | .sigF, t, t' => Numeric t ∧ t' = .float
 
+/-- only registers and non-constant variables can be written to -/
+def Assignable (Γ : Ctx) (v : VarRef) : Prop := v.isReg = true ∨ Γ.isConst v.id = false
+
 /-- the parameters an argument has to be written for -/
 def required : List Param → List Param
   | [] => []
@@ -849,8 +853,10 @@ inductive HasType (Γ : Ctx) : TExpr → ETy → Prop
   /-- all non-blank cases of a difficulty switch have one value type, the type of the switch -/
   | diffSwitch {first rest t} : HasType Γ first (.value t) → CasesTyped Γ t rest →
       HasType Γ (.diffSwitch first rest) (.value t)
-  /-- `++` / `--` apply to int variables only (through a sigil or not) and give an int -/
-  | xcrement {pre inc v} : ReadTy (Γ.refTy v) v.sig .int → HasType Γ (.xcrement pre inc v) (.value .int)
+  /-- `++` / `--` apply to int variables only (through a sigil or not), write to them (so not to
+  constants) and give an int -/
+  | xcrement {pre inc v} : ReadTy (Γ.refTy v) v.sig .int → Assignable Γ v →
+      HasType Γ (.xcrement pre inc v) (.value .int)
   /-- a qualified enum constant has the type of its enum -/
   | enumConst (en name) : HasType Γ (.enumConst en name) (.value (Γ.enumTy en))
   | labelProp (l) : HasType Γ (.labelProp l) (.value .int)
@@ -880,9 +886,6 @@ inductive PseudosTyped (Γ : Ctx) : TPseudos → Prop
   | cons {k e ps t} : HasType Γ e (.value t) → PseudoTy k = t → PseudosTyped Γ ps →
       PseudosTyped Γ (.cons k e ps)
 end
-
-/-- only registers and non-constant variables can be written to -/
-def Assignable (Γ : Ctx) (v : VarRef) : Prop := v.isReg = true ∨ Γ.isConst v.id = false
 
 /-- the operand rule of a compound assignment `v op= e` is the one of `v op e` -/
 def AssignTy (op : AssignOp) (t : Ty) : Prop :=
@@ -1136,7 +1139,8 @@ def NoStrEnumConst (Γ : Ctx) (e : TExpr) : Prop :=
   ∀ en n, .enumConst en n ∈ subsE e → Γ.enumStr en = false
 
 /-- no `++` / `--` in `e` writes to a constant (what `check_var_is_assignable` demands of
-assignment and clobber targets; `check_expr` does not demand it, see `checksXcrementTarget`) -/
+assignment and clobber targets, and since e098828 of the operand of `++` / `--`, see
+`checksXcrementTarget`) -/
 def WritesOk (Γ : Ctx) (e : TExpr) : Prop :=
   ∀ pre inc v, .xcrement pre inc v ∈ subsE e → Assignable Γ v
 
